@@ -3,7 +3,14 @@
 use crate::scenario::*;
 use crate::util::{hash_str, mix, Rng};
 
+pub mod c01;
+pub mod c02;
+pub mod c04;
+pub mod c05;
+pub mod c06;
 pub mod c07;
+pub mod c09;
+pub mod common;
 
 pub enum Budget {
     /// exactly this many runs (indices 0..n)
@@ -48,7 +55,18 @@ pub fn pick_sched(rng: &mut Rng) -> Sched {
 
 pub fn plan(prop: &str, tier: Tier, seed: u64) -> Option<Vec<Campaign>> {
     match prop {
+        "C01" => Some(c01::plan(tier, seed)),
+        "C02" => Some(c02::plan_c02(tier, seed)),
+        "C03" => Some(c02::plan_c03(tier, seed)),
+        "C04" => Some(c04::plan(tier, seed)),
+        "C05" => Some(c05::plan(tier, seed)),
+        "C06" => Some(c06::plan(tier, seed)),
         "C07" => Some(c07::plan(tier, seed)),
+        "C08" => Some(c09::plan("C08", tier, seed)),
+        "C09" => Some(c09::plan("C09", tier, seed)),
+        "C10" => Some(c04::plan_c10(tier, seed)),
+        "C11" => Some(c09::plan("C11", tier, seed)),
+        "C13" => Some(c09::plan("C13", tier, seed)),
         _ => None,
     }
 }
